@@ -1307,8 +1307,8 @@ func c10Weighted(r *c10Rand, v2 bool) []byte {
 func c10Boundary(r *c10Rand, c *c10Case, self, other common.Address) (code []byte, otherCode []byte, name string) {
 	a := newAsm()
 	ret32 := func() { a.push(0).op(MSTORE).push(32).push(0).op(RETURN) }
-	switch k := r.Intn(27); k {
-	case 23, 24, 25: // systematic offset/length matrix for every offset-taking opcode
+	switch k := r.Intn(29); k {
+	case 23, 24, 25, 27, 28: // systematic offset/length matrix for every offset-taking opcode
 		name = "offset-matrix"
 		two := func(n uint) *big.Int { return new(big.Int).Lsh(big.NewInt(1), n) }
 		var offs []*big.Int
@@ -1356,13 +1356,36 @@ func c10Boundary(r *c10Rand, c *c10Case, self, other common.Address) (code []byt
 			a.push(0).push(0).push(0).push(0).push(0).pushAddr(other).op(GAS, CALL, POP)
 		}
 		a.push(0xa1a2a3a4).push(0).op(MSTORE)
-		op := []OpCode{RETURNDATACOPY, CALLDATACOPY, CODECOPY, EXTCODECOPY, CALLDATALOAD, MLOAD, MSTORE, MSTORE8, SHA3,
-			LOG0, LOG2, RETURN, REVERT, CREATE, CREATE2, CALL, CALLCODE, DELEGATECALL, STATICCALL}[r.Intn(19)]
+		op := []OpCode{RETURNDATACOPY, RETURNDATACOPY, RETURNDATACOPY, RETURNDATACOPY, CALLDATACOPY, CALLDATACOPY, CODECOPY, CODECOPY,
+			EXTCODECOPY, EXTCODECOPY, CALLDATALOAD, MLOAD, MSTORE, MSTORE8, SHA3,
+			LOG0, LOG2, RETURN, REVERT, CREATE, CREATE2, CALL, CALLCODE, DELEGATECALL, STATICCALL}[r.Intn(25)]
+		// source offsets of the copy opcodes: half of the time within 33 of 2^64 (offset + length wraps in uint64)
+		nearD := int64(-1) // distance of the source offset below 2^64, when chosen near it
+		srcOff := func() *big.Int {
+			if r.Chance(2, 3) {
+				nearD = int64(r.Intn(35)) - 1
+				return new(big.Int).Sub(two(64), big.NewInt(nearD))
+			}
+			return pick(1, which)
+		}
+		cpLen := func() *big.Int { // call after srcOff
+			if nearD >= 0 && r.Chance(1, 2) {
+				return big.NewInt(nearD + int64(r.Intn(3)) - 1 + 1) // length around the distance to 2^64: sum = 2^64 - 1, 2^64, 2^64 + 1
+			}
+			if r.Chance(3, 4) {
+				return lens[1+r.Intn(3)]
+			}
+			return ln()
+		}
 		switch op {
 		case RETURNDATACOPY, CALLDATACOPY, CODECOPY:
-			a.pushBig(ln()).pushBig(pick(1, which)).pushBig(pick(0, which)).op(op)
+			so := srcOff()
+			cl := cpLen()
+			a.pushBig(cl).pushBig(so).pushBig(pick(0, which)).op(op)
 		case EXTCODECOPY:
-			a.pushBig(ln()).pushBig(pick(1, which)).pushBig(pick(0, which)).pushAddr(other).op(op)
+			so := srcOff()
+			cl := cpLen()
+			a.pushBig(cl).pushBig(so).pushBig(pick(0, which)).pushAddr(other).op(op)
 		case CALLDATALOAD, MLOAD:
 			a.pushBig(bigOff()).op(op).op(POP)
 		case MSTORE, MSTORE8:
